@@ -614,6 +614,9 @@ fn main() {
     cases.push(base(false, Some(1024), vec![1100], vec![(0, 9), (0, 1091)], true, "directed"));
     cases.push(base(true, Some(1024), vec![1100], vec![(0, 1), (0, 1099)], true, "directed"));
     cases.push(base(false, None, vec![41], vec![(0, 0), (0, 41)], true, "directed"));
+    // an empty chunk that becomes a zero-length leaf (variable leaves)
+    cases.push(base(false, None, vec![41], vec![(0, 20), (0, 0), (0, 21)], true, "directed"));
+    cases.push(base(true, None, vec![41], vec![(0, 0), (0, 41)], true, "directed"));
 
     // fixed leaves, one byte beyond box offset 16: rejected by the reader for every history
     cases.push(base(false, Some(1024), vec![9], vec![(0, 9)], true, "directed"));
@@ -621,8 +624,8 @@ fn main() {
     cases.push(base(true, Some(1024), vec![2], vec![(0, 2)], true, "directed"));
     cases.push(base(false, None, vec![9], vec![(0, 9)], true, "directed"));
     // two mdat boxes, one-shot feeds: the reader's verdict on identical bytes varies between reads
-    for i in 0..4 {
-        let mut c = base(i % 2 == 1, if i < 2 { None } else { Some(1024) }, vec![1500, 2600], vec![(0, 1500), (1, 2600)], true, "directed");
+    for i in 0..12 {
+        let mut c = base(i % 2 == 1, if i % 4 < 2 { None } else { Some(1024) }, vec![1500, 2600], vec![(0, 1500), (1, 2600)], true, "directed");
         c.variant = (i % 2) as u8;
         cases.push(c);
     }
@@ -636,6 +639,8 @@ fn main() {
             }
         }
     }
+    // directed (minimal) cases first, so that the replay file of a signature holds the smallest witness
+    cases.sort_by_key(|c| !c.origin.starts_with("directed"));
     let grid_n = cases.len();
     let n_rand_acc = run.tier.pick(60_000, 1_000_000);
     let n_rand_e2e = run.tier.pick(6_000, 80_000);
